@@ -160,6 +160,8 @@ class SelectorWorld:
     # ---- dynamic arguments
     def resolve_param(self, v, objname=None):
         if isinstance(v, dict):
+            if "$ndarray" in v:
+                return np.array(v["$ndarray"], dtype=int)
             if "$prefix_of" in v:
                 src = self.objs.get(v["$prefix_of"])
                 try:
@@ -632,7 +634,7 @@ class SelectorWorld:
                 first = not ref.selected
                 if first:
                     init = p.get("initialize", 0)
-                    if isinstance(init, numbers.Integral) and j != init:
+                    if isinstance(init, numbers.Integral) and not isinstance(init, bool) and j != init:
                         V("initial_point", f"first selection {j} is not the requested initial index {init}")
                 ok, short = ref.check_choice(j)
                 if ref.is_tie() and not first:
